@@ -1,0 +1,57 @@
+//go:build verif
+
+package verifhook
+
+// End-to-end console sessions (op uireal of the verification harness): what
+// the user sees of the current mode, as plain data.
+
+import (
+	"mltwist/internal/consoleui"
+	"mltwist/internal/consoleui/disassemble"
+	"mltwist/internal/consoleui/emulate"
+	"mltwist/internal/consoleui/internal/lines"
+	"mltwist/internal/consoleui/internal/memview"
+)
+
+// Se2ePrint calls View().Print(n) of the mode with stdout captured. status is
+// "ok" (nil returned), "err" (an error returned) or "PANIC"; out is what was
+// written.
+func Se2ePrint(m consoleui.Mode, n int) (status string, out string) {
+	status = "ok"
+	out = CaptureStdout(func() {
+		defer func() {
+			if p := recover(); p != nil {
+				status = "PANIC"
+			}
+		}()
+		if err := m.View().Print(n); err != nil {
+			status = "err"
+		}
+	})
+	return status, out
+}
+
+// Se2eListing returns text and mark of every line of the listing of a
+// disassembler mode (kind "dis") or of an emulator mode (kind "emu").
+func Se2eListing(kind string, m consoleui.Mode) (texts []string, marks []string) {
+	var v *lines.View
+	switch kind {
+	case "dis":
+		v = disassemble.VerifView(m)
+	case "emu":
+		v = emulate.VerifSuicLineView(m)
+	default:
+		panic("mode kind without a listing: " + kind)
+	}
+
+	n := v.Lines.Len()
+	texts, marks = make([]string, n), make([]string, n)
+	for i := 0; i < n; i++ {
+		l := v.Lines.Index(i)
+		texts[i], marks[i] = l.String(), string(l.Mark())
+	}
+	return texts, marks
+}
+
+// Se2eMemRows returns the number of rows of the memory view of m.
+func Se2eMemRows(m consoleui.Mode) int { return memview.VerifSe2eRows(m) }
